@@ -6,7 +6,17 @@ REAL_SW = ['ASINH', 'ACOSH', 'ATANH', 'EXPM1', 'LOG1P', 'ATAN2', 'HYPOT']
 CPLX = ['CSQRT', 'CPOW', 'CEXP', 'CLOG', 'CSIN', 'CCOS', 'CTAN', 'CSINH', 'CCOSH', 'CTANH', 'CASIN', 'CACOS', 'CATAN', 'CASINH', 'CACOSH', 'CATANH']
 
 
+def _arms(tier):
+    # combinations of the real switches that a nested conditional in math.c / math.h makes relevant (none on the pinned tree); see vf_arms.py
+    import vf_arms
+    return [dict(c, have=c['have'] + CPLX, nworkers=2) for c in vf_arms.arms(REAL_SW, ('src/math.c', 'include/a/math.h'))]
+
+
 def _configs(tier):
+    return _configs0(tier) + _arms(tier)
+
+
+def _configs0(tier):
     out = []
     # strides and lengths beyond 2^32 over sparsely backed mappings (unsanitised, double build)
     giant = dict(name='giant', real=8, have=REAL_SW + CPLX, harness=['h_real_giant.c'], flavour='fast', nworkers=6 if tier == 'quick' else 11)
